@@ -153,6 +153,12 @@ def run(ck, prog, tier):
                 raise AnalysisError('a computing path mixes steps<0 and steps>0')
             r = -V('rate') if mirrored else V('rate')
             a = -V('accel') if mirrored else V('accel')
+            if isinstance(o.value, Tup) and len(o.value.items) == 3 and not all(
+                    isinstance(x, Sym) for x in o.value.items):
+                # a triple, but the interpreter has no normal form for one of its entries
+                raise AnalysisError('calculate_lm returns a triple with an entry outside the '
+                                    'rational-normal-form domain: %r'
+                                    % ([x for x in o.value.items if not isinstance(x, Sym)][0],))
             if not (isinstance(o.value, Tup) and len(o.value.items) == 3
                     and all(isinstance(x, Sym) for x in o.value.items)):
                 ck.ob('C03-D3-accumulator', 'calculate_lm[%s]::returns-triple' % mode, False,
@@ -199,7 +205,14 @@ def run(ck, prog, tier):
                     nc = motion.norm_path_cond(c_, t_)
                     if nc is None:
                         continue
-                    e0 = nc[0].subs({('v', 'accel'): Sym.const(0)})
+                    try:
+                        e0 = nc[0].subs({('v', 'accel'): Sym.const(0)})
+                    except ZeroDivisionError:
+                        continue      # a quotient by accel: not evaluated when accel = 0
+                    if e0.is_const():
+                        if not motion._holds(e0.const_value(), nc[1]):
+                            possible = set()      # the path is not taken with accel = 0
+                        continue
                     ident = motion.identify(e0, [V('rate')], [])
                     if ident is not None:
                         sat = motion.SAT[nc[1]]
@@ -214,8 +227,13 @@ def run(ck, prog, tier):
                     t_want = mk_func('CEIL', (TWO31 * pos_want - adj) / r)
                     # on these paths accel = 0: substitute before comparing
                     zero = {('v', 'accel'): Sym.const(0)}
-                    ok_t = motion.strip_int(t_f.subs(zero)) == t_want.subs(zero) and \
-                        pos.subs(zero) == pos_want
+                    try:
+                        ok_t = motion.strip_int(t_f.subs(zero)) == t_want.subs(zero) and \
+                            pos.subs(zero) == pos_want
+                    except ZeroDivisionError:
+                        # the returned duration divides by accel: not a path taken with accel = 0
+                        # (its path conditions relate rate and accel beyond their signs)
+                        continue
                     ck.ob('C03-D7-constant-rate-duration',
                           'calculate_lm[%s]::%sconstant-rate %s' % (mode, what,
                                                                     'negative' if neg else 'positive'),
